@@ -751,6 +751,12 @@ func (ex *Exec) callSSA(caller *Frame, callpos token.Pos, fn *ssa.Function, args
 	if in := ex.p.intrinsicFor(fn); in != nil && !(ex.p.stubSet["real-ipld"] && isIpldCodecStub(in.name)) &&
 		!(ex.p.stubSet["real-peer-text"] && (strings.HasSuffix(in.name, "/peer.ID).String") || strings.HasSuffix(in.name, "/peer.Decode"))) {
 		ex.res.Stubs[in.name]++
+		if in.mayDecline {
+			if r := in.fn(ex, fr, args); r != (fallThrough{}) {
+				return r
+			}
+			goto interpret
+		}
 		if ex.cfg.Races {
 			if key := syncKeyOf(in.name, args); key != nil {
 				// synchronisation primitive: clocks are exchanged on the object both
@@ -768,6 +774,7 @@ func (ex *Exec) callSSA(caller *Frame, callpos token.Pos, fn *ssa.Function, args
 		}
 		return in.fn(ex, fr, args)
 	}
+interpret:
 	if fn.Blocks == nil {
 		// synthesized package initializers of other packages: lazy
 		if fn.Name() == "init" && fn.Pkg != nil && fn.Synthetic != "" {
